@@ -72,6 +72,17 @@ def short(obj, n=300):
     return s if len(s) <= n else s[:n] + "..."
 
 
+def has_nonfinite(obj, depth=0):
+    """True when a float nan/inf occurs anywhere in a (JSON-like) implementation result"""
+    if isinstance(obj, float):
+        return obj != obj or obj in (float("inf"), float("-inf"))
+    if isinstance(obj, dict):
+        return any(has_nonfinite(v, depth + 1) for v in obj.values())
+    if isinstance(obj, (list, tuple)):
+        return any(has_nonfinite(v, depth + 1) for v in obj)
+    return False
+
+
 class Runner:
     def __init__(self, mod, tier, seed):
         self.mod = mod
@@ -98,6 +109,9 @@ class Runner:
                 self.violations.append({"sig": sig, "msg": msg, "case": case, "observed": res})
             for ft in mod.features(case, res):
                 self.feature_hist[ft] = self.feature_hist.get(ft, 0) + 1
+            if has_nonfinite(res):      # visibility only: comparisons against nan are always false, so count where they could hide
+                self.feature_hist["result:contains-nan-or-inf"] = self.feature_hist.get("result:contains-nan-or-inf", 0) + 1
+                self.nonfinite_cases = getattr(self, "nonfinite_cases", 0) + 1
             k = mod.nontrivial_key(case, res)
             if k is not None:
                 self.nontrivial.add(k)
